@@ -103,7 +103,7 @@ package immutable
 //@ end
 //
 // ---- interface contract: what a node knows about its children
-//@ include internal/verifspec/hamtnode.contracts HEAD=iface·mapNode. OPTS=option·frame=on DOPTS=option·note=none
+//@ include internal/verifspec/hamtnode.contracts HEAD=iface·mapNode. OPTS=option·frame=on DOPTS=option·note=none SOPTS=inst·VT_0,·VT_1 SOPTS2=inst·VT_0,·bool
 //
 // ---- leaves
 // leafWF(l, h): what every leaf (value node, collision node) guarantees about its own lookups:
@@ -134,7 +134,7 @@ package immutable
 //@   tag persistent
 //@   ghost before "return other" :: { h := verifspec.Ghost[fp.Hashable[K]]("h"); verifspec.Reveal(Rec_childOK(mapNode[K, V](node), idx1, shift, h)); verifspec.Reveal(Rec_childOK(other.nodes[0], idx1, shift, h)) }
 //
-//@ include internal/verifspec/hamtnode.contracts HEAD=func·(*mapValueNode). OPTS=option·assume=mergeIntoNode,get,indexOf·timeout=60 DOPTS=option·note=none
+//@ include internal/verifspec/hamtnode.contracts HEAD=func·(*mapValueNode). OPTS=option·assume=mergeIntoNode,get,indexOf·timeout=60 DOPTS=option·note=none SOPTS=option·note2=none SOPTS2=option·note3=none
 //
 // ---- array node (root only): entries searched linearly, first match wins
 //@ func (*mapArrayNode).indexOf(n, key, h) result
@@ -146,7 +146,7 @@ package immutable
 //@   loop 0 invariant 0 <= i && i < len(n.entries) && (forall j int :: 0 <= j && j < i ==> !h.Eqv(n.entries[j].key, key))
 //@   loop 0 decreases len(n.entries) - i
 //
-//@ include internal/verifspec/hamtnode.contracts HEAD=func·(*mapArrayNode). OPTS=option·assume=indexOf,mergeIntoNode·timeout=40 DOPTS=option·note=none
+//@ include internal/verifspec/hamtnode.contracts HEAD=func·(*mapArrayNode). OPTS=option·assume=indexOf,mergeIntoNode·timeout=40 DOPTS=option·note=none SOPTS=option·note2=none SOPTS2=option·note3=none
 //
 //@ func (*mapArrayNode).set(n, key, value, shift, keyHash, h, mutable, resized) result
 //@   loop 0 invariant 0 <= idx_ && idx_ < len(n.entries) && node != nil && *resized && Rec_nodeWF(node, 0, h)
@@ -184,10 +184,10 @@ package immutable
 //@   loop 0 invariant 0 <= i && i < len(n.entries) && (forall j int :: 0 <= j && j < i ==> !h.Eqv(n.entries[j].key, key))
 //@   loop 0 decreases len(n.entries) - i
 //
-//@ include internal/verifspec/hamtnode.contracts HEAD=func·(*mapHashCollisionNode). OPTS=option·assume=indexOf,get,mergeIntoNode·timeout=240 DOPTS=option·note=none
+//@ include internal/verifspec/hamtnode.contracts HEAD=func·(*mapHashCollisionNode). OPTS=option·assume=indexOf,get,mergeIntoNode·timeout=240 DOPTS=option·note=none SOPTS=option·note2=none SOPTS2=option·note3=none
 //
 // ---- hash array node (branch): 32 slots indexed by the hash fragment
-//@ include internal/verifspec/hamtnode.contracts HEAD=func·(*mapHashArrayNode). OPTS=option·timeout=240·steps=6000000 DOPTS=option·tier=thorough
+//@ include internal/verifspec/hamtnode.contracts HEAD=func·(*mapHashArrayNode). OPTS=option·timeout=240·steps=6000000 DOPTS=option·tier=thorough SOPTS=option·note2=none SOPTS2=option·note3=none
 //@ func (*mapHashArrayNode).set(n, key, value, shift, keyHash, h, mutable, resized) result
 //@   ghost before "newNode = node.set(" :: verifspec.Reveal(Rec_childOK(node, idx, shift, h))
 //@   ghost before "return other" :: verifspec.Reveal(Rec_childOK(newNode, idx, shift, h))
@@ -208,7 +208,7 @@ package immutable
 // (32-way case split on the hash fragment combined with population-count circuits).  Children of every node kind
 // are used through the interface contract of mapNode only, so what remains unproved is exactly: "the bitmap node
 // implements that contract".
-//@ include internal/verifspec/hamtnode.contracts HEAD=func·(*mapBitmapIndexedNode). OPTS=option·tier=manual DOPTS=option·timeout=120
+//@ include internal/verifspec/hamtnode.contracts HEAD=func·(*mapBitmapIndexedNode). OPTS=option·tier=manual DOPTS=option·timeout=120 SOPTS=option·note2=none SOPTS2=option·note3=none
 //@ func (*mapBitmapIndexedNode).set(n, key, value, shift, keyHash, h, mutable, resized) result
 //@   option tier=manual
 //@   ghost before "keyHashFrag := " :: verifspec.AssertPure(bitmapGetByBit(n, shift, h))
@@ -243,6 +243,8 @@ package immutable
 //
 //@ func (*hamt).set(m, key, value, mutable) result
 //@   prop C03 C04
+//@   inst VT_0, VT_1
+//@   inst VT_0, bool
 //@   option timeout=60
 //@   option assume=indexOf
 //@   requires hamtWF(m) && !mutable
@@ -314,6 +316,31 @@ package immutable
 //@ 	return n1 == n0 && c1 == c0
 //@ }
 //@ end
+// After Build the builder is in its handed-out state (built): every later Add keeps it there and writes nothing
+// that existed before the call except the builder's own fields — so, by induction over the later Adds, the Set
+// obtained from Build never changes (C04).  The in-place mode before the first Build is not covered.
+//@ func (*setBuilder).Build(r) result
+//@   prop C04
+//@   option modifies=r
+//@   requires r != nil && r.m != nil
+//@   ensures r.built
+//@   tag entersHandedOutState
+//@   ensures Unchanged()
+//@   tag nothingElseWritten
+//
+//@ func (*setBuilder).Add(r, v) result
+//@   prop C04
+//@   option assume=set
+//@   option modifies=r
+//@   option timeout=60
+//@   requires r != nil && r.built && hamtWF(r.m)
+//@   ensures r.built && result == r
+//@   tag staysCopyOnWriteOnceHandedOut
+//@   ensures hamtWF(r.m)
+//@   tag wellFormed
+//@   ensures Unchanged()
+//@   tag handedOutTrieNotWritten
+//
 //@ lemma setBuilderBuildIsSnapshot[V any](h fp.Hashable[V], a, b, c V)
 //@   prop C04 C03
 //@   option frame=off
